@@ -353,15 +353,25 @@ func (j *totalJudge) oneRound() {
 		br := new(big.Rat).SetFrac(bi, den)
 		snapR := new(big.Rat).Set(br)
 		j.do("FromRat", 0, func() { _ = decimal128.FromRat(br) })
-		bf := new(big.Float).SetPrec(uint(1 + z.X.Hi&0x1ff)).SetInt(bi)
+		// precision 1..512, or (one case in four) a wide one up to ~16k bits with a mantissa that really uses it; the
+		// operand's precision, mode and value are all part of the caller's state (seed C20-fromfloat-setprec-...)
+		prec := uint(1 + z.X.Hi&0x1ff)
+		if z.I&0x30 == 0x30 {
+			prec = uint(513 + (z.X.Hi>>9)&0x3fff)
+		}
+		bf := new(big.Float).SetPrec(prec).SetMode(big.RoundingMode(z.M % 6)).SetInt(bi)
+		if prec > 512 {
+			// 1/3 at full precision: a mantissa with bits all the way down
+			bf.Quo(bf, new(big.Float).SetPrec(prec).SetInt64(3))
+		}
 		bf.SetMantExp(bf, int(int16(z.X.Lo)))
 		if z.I&4 == 4 {
 			bf.SetInf(z.I&8 == 8)
 		}
 		snapF := new(big.Float).Copy(bf)
 		j.do("FromFloat", 0, func() { _ = decimal128.FromFloat(bf) })
-		if bi.Cmp(snap) != 0 || br.Cmp(snapR) != 0 || bf.Cmp(snapF) != 0 {
-			j.fail("FromInt/FromRat/FromFloat", "input-modified", "big arguments unchanged", "modified")
+		if bi.Cmp(snap) != 0 || br.Cmp(snapR) != 0 || bf.Cmp(snapF) != 0 || bf.Prec() != snapF.Prec() || bf.Mode() != snapF.Mode() || bf.MinPrec() != snapF.MinPrec() || bf.Signbit() != snapF.Signbit() {
+			j.fail("FromInt/FromRat/FromFloat", "input-modified", "big arguments unchanged (value, precision, mode)", "modified")
 		}
 	}
 	// --- text in
